@@ -84,11 +84,11 @@ Definition observe (s : kstate) : tr :=
 (** result of replaying one case: [None] = model and implementation agreed on every step *)
 Inductive mismatch := MM (step : nat) (model_res : N) (model_obs : tr) | MPanic (step : nat) (site : string).
 
-Fixpoint run_case (i : nat) (s : kstate) (steps : list (op * N * tr)) : option mismatch :=
+Fixpoint run_case (i : nat) (s : kstate) (steps : list (xop * N * tr)) : option mismatch :=
   match steps with
   | [] => None
   | (o, r, ob) :: rest =>
-      match step s o with
+      match xstep s o with
       | Panic site => Some (MPanic i site)
       | Ok (s', r') =>
           if (r' =? r) && tr_eqb (observe s') ob then run_case (S i) s' rest
@@ -97,10 +97,10 @@ Fixpoint run_case (i : nat) (s : kstate) (steps : list (op * N * tr)) : option m
   end.
 
 (** states reached, for the monitors *)
-Fixpoint run_states (s : kstate) (ops : list op) : list kstate :=
+Fixpoint run_states (s : kstate) (ops : list xop) : list kstate :=
   match ops with
   | [] => []
-  | o :: rest => match step s o with
+  | o :: rest => match xstep s o with
                  | Ok (s', _) => s' :: run_states s' rest
                  | Panic _ => []
                  end
@@ -109,29 +109,106 @@ Fixpoint run_states (s : kstate) (ops : list op) : list kstate :=
 (** C05 no-op clause on an implementation trace: whenever the message is all-invalid with respect
     to the state the model is in, the implementation must not report it accepted/verified and its
     observation must equal the previous one.  Returns the index of the first offending step. *)
-Fixpoint noop_trace_bad (i : nat) (s : kstate) (prev : tr) (steps : list (op * N * tr)) : option nat :=
+Fixpoint noop_trace_bad (i : nat) (s : kstate) (prev : tr) (steps : list (xop * N * tr)) : option nat :=
   match steps with
   | [] => None
   | (o, r, ob) :: rest =>
       let bad :=
         match o with
-        | OpPrevote m => msg_all_invalid (keys_for s m) KPrevote m &&
+        | XOp (OpPrevote m) => msg_all_invalid (keys_for s m) KPrevote m &&
                          ((r =? HandleVoteProofsAccepted) || (r =? HandleVoteProofsFutureVerified) || negb (tr_eqb ob prev))
-        | OpPrecommit m => msg_all_invalid (keys_for s m) KPrecommit m &&
+        | XOp (OpPrecommit m) => msg_all_invalid (keys_for s m) KPrecommit m &&
                          ((r =? HandleVoteProofsAccepted) || (r =? HandleVoteProofsFutureVerified) || negb (tr_eqb ob prev))
-        | OpPH _ => false
+        | _ => false
         end in
       if bad then Some i else
-      match step s o with
+      match xstep s o with
       | Ok (s', _) => noop_trace_bad (S i) s' ob rest
       | Panic _ => None
       end
   end.
 
-Definition obs_of (steps : list (op * N * tr)) : list tr := map (fun x => snd x) steps.
+Definition obs_of (steps : list (xop * N * tr)) : list tr := map (fun x => snd x) steps.
 
 Fixpoint first_bad (f : tr -> bool) (i : nat) (l : list tr) : option nat :=
   match l with
   | [] => None
   | o :: rest => if f o then first_bad f (S i) rest else Some i
+  end.
+
+(** * C10 monitors over a trace with crashes *)
+Definition is_restart (x : xop) : bool := match x with XOp _ => false | _ => true end.
+
+Definition pos_of (o : tr) : N * N := (tn (nth_tr (nth_tr o 2) 0), tn (nth_tr (nth_tr o 2) 1)).
+
+(** First restart step whose observation fails [f], split in two classes with the help of the
+    model: cls 1 = the start-up re-evaluation moved the position (the stored position differed from
+    the position after start-up), cls 2 = the node resumed exactly at the stored position. *)
+Definition crash_stores (s : kstate) (x : xop) : option stores :=
+  match x with
+  | XOp _ => None
+  | XRestart => Some (stores_of s)
+  | XCrash k o =>
+      match step s o with
+      | Ok (s1, _) => Some (fold_left apply_wr (firstn k (skipn (List.length (st_log s)) (st_log s1))) (stores_of s))
+      | Panic _ => None
+      end
+  end.
+
+Fixpoint restart_obs_bad (f : tr -> bool) (cls : N) (i : nat) (s : kstate) (steps : list (xop * N * tr)) : option nat :=
+  match steps with
+  | [] => None
+  | (x, _, ob) :: rest =>
+      let bad :=
+        match crash_stores s x with
+        | Some st =>
+            let '(vh, vr, _, _) := sr_nhr st in
+            let shifted := negb ((vh =? fst (pos_of ob)) && (vr =? snd (pos_of ob))) && negb (vh =? 0) in
+            negb (f ob) && (if shifted then cls =? 1 else cls =? 2)
+        | None => false
+        end in
+      if bad then Some i else
+      match xstep s x with
+      | Ok (s', _) => restart_obs_bad f cls (S i) s' rest
+      | Panic _ => None
+      end
+  end.
+
+(** redelivery converges: after [XCrash k o] followed by the redelivered [XOp o], compare the
+    implementation's position and committed chain with those of the crash-free run of [o] (computed
+    with the model, which the correspondence validates on crash-free steps).
+    class 0 = equal; 1 = same chain prefix but the restarted node is AHEAD; 2 = behind or different. *)
+Definition chain_of (o : tr) : list tr := map (fun e => TL [nth_tr e 0; nth_tr e 1]) (tls (nth_tr o 3)).
+
+Fixpoint tr_prefix (a b : list tr) : bool :=
+  match a, b with
+  | [], _ => true
+  | x :: a', y :: b' => tr_eqb x y && tr_prefix a' b'
+  | _, [] => false
+  end.
+
+Definition conv_class (ref got : tr) : N :=
+  let '(h1, r1) := pos_of ref in let '(h2, r2) := pos_of got in
+  if (h1 =? h2) && (r1 =? r2) && tr_eqb (TL (chain_of ref)) (TL (chain_of got)) then 0
+  else if tr_prefix (chain_of ref) (chain_of got) && ((h1 <? h2) || ((h1 =? h2) && (r1 <=? r2))) then 1
+  else 2.
+
+Fixpoint conv_trace_bad (cls : N) (i : nat) (s : kstate) (steps : list (xop * N * tr)) : option nat :=
+  match steps with
+  | [] => None
+  | (XCrash k o, r, ob) :: (((XOp o', r', ob') :: _) as rest) =>
+      let bad := match step s o with
+                 | Ok (sref, _) => conv_class (observe sref) ob' =? cls
+                 | Panic _ => false
+                 end in
+      if bad then Some (S i) else
+      match xstep s (XCrash k o) with
+      | Ok (s', _) => conv_trace_bad cls (S i) s' rest
+      | Panic _ => None
+      end
+  | (x, _, _) :: rest =>
+      match xstep s x with
+      | Ok (s', _) => conv_trace_bad cls (S i) s' rest
+      | Panic _ => None
+      end
   end.
